@@ -206,7 +206,7 @@ def expr_runs(tier, seed, flavour="plain", scalars=("Q", "d"), nrandom=None,
     return runs
 
 
-EXPR_RULE = ("programs: a committed catalogue of 55 operator expressions "
+EXPR_RULE = ("programs: a committed catalogue of 65 operator expressions "
              "(every scalar overload c*E E*c E/c E+c c+E E-c c-E -E with the "
              "spline's own type and with int/long/unsigned/size_t (and, for "
              "floating types, float/double/long double) scalars, sums of "
@@ -214,8 +214,8 @@ EXPR_RULE = ("programs: a committed catalogue of 55 operator expressions "
              "the example Hamiltonians, spline-valued factors) plus a "
              "VERIF_SEED-dependent random set drawn from the grammar "
              "E ::= I | X<n> | Dx<n> | SplineOperator{f} | c*E | E*c | E/c | "
-             "E+c | c+E | E-c | c-E | -E | E+E | E-E | E*E (depth <= 4, output "
-             "order <= 8); the C++ text (temporaries only, minimal parentheses) "
+             "E+c | c+E | E-c | c-E | -E | E+E | E-E | E*E (n = 0..7, depth <= 4, "
+             "output order <= 8); the C++ text (temporaries only, minimal parentheses) "
              "and the ModelExpr mirror are printed from one AST. Each "
              "expression is instantiated for operand orders 0..3 inside "
              "operator*, LinearForm and (in pairs, four order pairs) "
@@ -264,7 +264,9 @@ reg(Spec(
 
 
 def c06_runs(tier, seed):
-    return expr_runs(tier, seed) + expr_deep(tier, seed)
+    return expr_runs(tier, seed) + expr_deep(tier, seed) + [
+        RunSpec("pool", "Q", "plain", q(tier, 160, 10000)),
+        RunSpec("pool", "d", "plain", q(tier, 320, 20000))]
 
 
 reg(Spec(
@@ -275,9 +277,15 @@ reg(Spec(
          "ModelExpr(E1)(a)*ModelExpr(E2)(b), 0 without a common interval; "
          "through the library only (Q): swap symmetry, linearity in the first "
          "argument, BilinearForm{E2} == identity on the left, ScalarProduct "
-         "== BilinearForm{} == plain integral of a*b. Non-trivial: exact "
-         "value non-zero.",
+         "== BilinearForm{} == plain integral of a*b; the same expression "
+         "type on both sides holding different state (other scalars and "
+         "factor splines) applied to the very same spline object. The pool "
+         "machine (see C03) adds ScalarProduct and BilinearForm{X,Dx} over its "
+         "objects in the middle of histories (moved-from, interval-free and "
+         "point-like objects included). Non-trivial: exact value non-zero.",
     required=["bilinear", "bilinear:metamorphic",
+              "bilinear:same-type-different-state", "forms:scalar-product",
+              "forms:bilinear-X-Dx", "place:forms:A_EMPTY",
               "bilinear:no-common-interval", "bilinear:parity:oddxodd",
               "bilinear:parity:evenxodd", "bilinear:parity:oddxeven",
               "bilinear:parity:evenxeven"] +
@@ -295,7 +303,9 @@ reg(Spec(
 
 
 def c07_runs(tier, seed):
-    return expr_runs(tier, seed) + expr_deep(tier, seed)
+    return expr_runs(tier, seed) + expr_deep(tier, seed) + [
+        RunSpec("pool", "Q", "plain", q(tier, 160, 10000)),
+        RunSpec("pool", "d", "plain", q(tier, 320, 20000))]
 
 
 reg(Spec(
@@ -308,7 +318,8 @@ reg(Spec(
          "exactly (Q). Non-trivial: exact value non-zero.",
     required=["linear", "linear:interval-free", "linear:outsize-parity:odd",
               "linear:outsize-parity:even", "linear:vs-apply",
-              "bilinear:metamorphic"] +
+              "bilinear:metamorphic", "forms:linear-X2",
+              "forms:linear-identity"] +
              ["linear:outsize:%d" % i for i in range(1, 9)],
     assumptions=[DYADIC, MODEL],
     evaluations=["linear", "bilinear:metamorphic"],
@@ -438,7 +449,9 @@ reg(Spec(
           "vector / iterator / shared_ptr / initializer_list constructors and "
           "as knot vectors, plus sequences of 3..40 points with one defect "
           "(swap, duplicate, NaN, infinity) at a random position incl. first "
-          "and last, and the null shared_ptr. Support: every (start,end) in "
+          "and last, the null shared_ptr, iterator ranges of a wider value "
+          "type whose neighbours collapse when stored as T, and single-pass "
+          "std::istream_iterator ranges. Support: every (start,end) in "
           "{0..n+2, 2^64-1-k, 2^63} for n = 2..7. Spline: every coefficient "
           "count 0..n+1 against every window. Generator: knot vectors of "
           "length 2..9 with repeats against orders 0..5 and 8 (both sides of "
@@ -1097,6 +1110,8 @@ reg(Spec(
                  "scalar-right", "scalar-div", "negate", "mul-assign",
                  "div-assign", "mul-assign-alias", "cross-order-assign",
                  "linear-combination")] + ["scalar:zero", "grid:large",
+                                          "migration:checked",
+                                          "cross-order-assign:same-window",
                                           "orders:8,8", "orders:0,5",
                                           "checked:mul", "checked:sub-assign"],
     assumptions=[DYADIC, MODEL, "orders 0..4 in the pool (0..6 thorough); "
@@ -1111,7 +1126,9 @@ reg(Spec(
 
 def c10_runs(tier, seed):
     runs = [RunSpec("pool", "Q", "plain", q(tier, 320, 30000)),
-            RunSpec("pool", "d", "nochk", q(tier, 640, 60000))]
+            RunSpec("pool", "d", "nochk", q(tier, 640, 60000)),
+            RunSpec("validate", "f", "plain", q(tier, 1200, 40000),
+                    params={"gridblocks": 100, "gridpercase": 64})]
     if tier == "thorough":
         runs += [RunSpec("pool", "d", "plain", 40000),
                  RunSpec("pool", "Q", "nochk", 6000, defines=("MAXO=6",),
@@ -1137,7 +1154,8 @@ reg(Spec(
               "step:construct-empty", "step:construct-point", "step:destroy",
               "step:support-move", "c10:moved-from-support-checked",
               "step:fail-add-assign", "step:fail-ctor-count",
-              "step:fail-lincomb", "step:fail-factor", "step:fail-grid-ctor"],
+              "step:fail-lincomb", "step:fail-factor", "step:fail-grid-ctor",
+              "grid-foreign:collapsing", "step:grid-migration"],
     assumptions=["histories of 150 steps over 15+5 objects; orders 0..4 "
                  "(0..6 thorough)", "self-move-assignment is exercised except "
                  "under the checked-STL flavour, where libstdc++ itself "
@@ -1149,7 +1167,9 @@ reg(Spec(
 
 
 def c14_runs(tier, seed):
-    return pool_runs(tier, seed, flavours=("nochk",)) + (
+    n = q(tier, 8000, 600000)
+    return pool_runs(tier, seed, flavours=("nochk",)) + [
+        RunSpec("eval", "Q", "plain", n), RunSpec("eval", "d", "plain", n)] + (
         [RunSpec("pool", "d", "plain", 40000)] if tier == "thorough" else [])
 
 
@@ -1162,9 +1182,14 @@ reg(Spec(
          "everything outside the declared write set (the target of an in-place "
          "operator or assignment, both sides of a move, nothing for any other "
          "call and nothing for a call that throws) must be bit-identical; the "
-         "vectors behind the two shared grids never change. " + POOL_NT,
+         "vectors behind the two shared grids never change. Evaluation is a "
+         "read: every written object is evaluated at all grid points and "
+         "midpoints in ascending and then in descending order, and the "
+         "evaluation driver (see C02; one case in sixteen on a grid of 65..120 "
+         "points) evaluates its abscissae as listed and then reversed; the "
+         "values must be bit-identical. " + POOL_NT,
     required=["c14:bystanders-compared", "c14:evaluations-repeated",
-              "step:fail-add-assign",
+              "grid:large", "step:fail-add-assign",
               "step:fail-sub-assign", "step:copy-construct",
               "step:copy-assign", "step:mul-assign", "step:add-assign"],
     assumptions=["histories of 150 steps; orders 0..4"],
